@@ -48,7 +48,8 @@ func verifReadFile(path string) ([]byte, bool) {
 	return data, err == nil
 }
 
-var verifNodeKindPool = [][]string{{"User"}, {"Group", "User"}, {}}
+// kind sets, two of which have the same comma-joined spelling
+var verifNodeKindPool = [][]string{{"User"}, {"Host", "Role=db,web"}, {}, {"Host", "Role=db", "web"}}
 
 func verifNodeProperties(variant, index int) map[string]any {
 	switch variant {
@@ -60,14 +61,18 @@ func verifNodeProperties(variant, index int) map[string]any {
 	return map[string]any{}
 }
 
-// verifBuildGraph fills one graph of db: n nodes (ids 1,3,5,..), e edges (ids 50,51,..)
+// verifBuildGraph fills one graph of db: n nodes (ids 1,3,5,.. or 0,2,4,..), e edges (ids 50,51,.. or 0,1,..)
 // whose shapes are chosen nondeterministically.
 func verifBuildGraph(db *verifDatabase, name string, n, e int, fixed bool) {
 	data := db.graphData(name)
+	nodeBase, edgeBase := 1, 50
+	if !fixed && verifrt.NondetChoice("ids start at zero", 2) == 1 {
+		nodeBase, edgeBase = 0, 0
+	}
 	for i := 0; i < n; i++ {
 		variant := i % 3
 		if !fixed {
-			variant = verifrt.NondetChoice("node shape", 3)
+			variant = verifrt.NondetChoice("node shape", len(verifNodeKindPool))
 		}
 		var kinds graph.Kinds
 		for _, kind := range verifNodeKindPool[variant] {
@@ -76,7 +81,7 @@ func verifBuildGraph(db *verifDatabase, name string, n, e int, fixed bool) {
 		if fixed {
 			kinds = graph.Kinds{graph.StringKind("Computer")}
 		}
-		data.nodes = append(data.nodes, graph.NewNode(graph.ID(1+2*i), graph.AsProperties(verifNodeProperties(variant, i)), kinds...))
+		data.nodes = append(data.nodes, graph.NewNode(graph.ID(nodeBase+2*i), graph.AsProperties(verifNodeProperties(variant%3, i)), kinds...))
 	}
 	for j := 0; j < e; j++ {
 		start, end, kindIndex := (j+1)%n, j%n, 1
@@ -91,7 +96,7 @@ func verifBuildGraph(db *verifDatabase, name string, n, e int, fixed bool) {
 		if fixed {
 			kind = graph.StringKind("HasSession")
 		}
-		data.relationships = append(data.relationships, graph.NewRelationship(graph.ID(50+j), graph.ID(1+2*start), graph.ID(1+2*end), graph.AsProperties(properties), kind))
+		data.relationships = append(data.relationships, graph.NewRelationship(graph.ID(edgeBase+j), graph.ID(nodeBase+2*start), graph.ID(nodeBase+2*end), graph.AsProperties(properties), kind))
 	}
 }
 
